@@ -10,8 +10,11 @@ CHECKS = {
     "C07": compiledchecks.c07,
     "C08": compiledchecks.c08,
     "C09": compiledchecks.c09,
+    "C10": smallchecks.c10,
     "C12": smallchecks.c12,
     "C13": compiledchecks.c13,
     "C14": smallchecks.c14,
     "C16": smallchecks.c16,
+    "C18": smallchecks.c18,
+    "C19": smallchecks.c19,
 }
